@@ -319,7 +319,11 @@ fn reload_with_barrier(d: &mut Daemon, dir: &Path, zones: &[ZoneSpec]) -> bool {
         if next_marker(d) != Some(true) {
             return false;
         }
-        write_step(dir, zones, true, d.port, "");
+        // only the configuration file is replaced: the first reload may still be running, and a zone file that is
+        // rewritten under it would be seen with the current time as its mtime (and then never be reloaded again)
+        let tmp = dir.join("config.toml.tmp");
+        std::fs::write(&tmp, "[[zones\nthis is not toml\n").unwrap();
+        std::fs::rename(&tmp, dir.join("config.toml")).unwrap();
         let st = Command::new("kill").args(["-HUP", &d.child.id().to_string()]).status();
         assert!(st.map(|s| s.success()).unwrap_or(false), "kill failed");
         match next_marker(d) {
